@@ -36,7 +36,9 @@ def make(rng, typ):
         c = GS.clause_struct(rng)
         op, v, wc = c
         w = dict(v, release=list(v["release"]) + ([0] if (op != "~=" and not wc and rng.random() < 0.6) else []))
-        return GS.spell_clause(rng, c, ws=False), GS.spell_clause(rng, (op, w, wc), ws=False), GS.spell_clause(rng, GS.clause_struct(rng, near=v), ws=False)
+        # the second object may be the member of a one-clause set
+        via = "in:" if rng.random() < 0.3 else ""
+        return GS.spell_clause(rng, c, ws=False), via + GS.spell_clause(rng, (op, w, wc), ws=False), GS.spell_clause(rng, GS.clause_struct(rng, near=v), ws=False)
     if typ == "SpecifierSet":
         near = GV.struct(rng)
         cs = [GS.clause_struct(rng, near=near) for _ in range(rng.randrange(0, 4))]
@@ -46,7 +48,9 @@ def make(rng, typ):
         if b and rng.random() < 0.3:
             b.append(b[0])
         c3 = a + [GS.clause(rng, near=near, ws=False)]
-        return ",".join(a), " , ".join(b), ",".join(c3)
+        # the second object may be obtained another way: by intersecting one-clause sets
+        via = "&:" if (rng.random() < 0.4 and not any("," in x for x in b)) else ""
+        return ",".join(a), via + " , ".join(b), ",".join(c3)
     if typ == "Marker":
         if rng.random() < 0.6:
             # two layouts of one formula tree: white space, quote style, PEP 345 spellings and redundant parentheses at
@@ -58,7 +62,8 @@ def make(rng, typ):
             b = GMK.render(tree, rng, extra_paren=0.5, max_redundant=3)
             return a, b, GMK.render(GMK.formula(rng, pool, p_odd=0.0), rng)
         m = GM.marker(rng, 2)
-        return m, respell_marker(rng, m), GM.marker(rng, 2)
+        # the second object may be the marker attached to a parsed requirement
+        return m, ("req:" if rng.random() < 0.4 else "") + respell_marker(rng, m), GM.marker(rng, 2)
     if typ == "Requirement":
         from props.C08 import render, req_struct
         st = req_struct(rng)
@@ -84,10 +89,23 @@ def build(typ, s):
     if typ == "Version":
         return version.Version(s)
     if typ == "Specifier":
+        if s.startswith("in:"):
+            if "," in s:
+                raise ValueError("comma inside a clause")
+            (m,) = list(specifiers.SpecifierSet(s[3:]))
+            return m
         return specifiers.Specifier(s)
     if typ == "SpecifierSet":
+        if s.startswith("&:"):
+            parts = [x for x in s[2:].split(",")]
+            acc = specifiers.SpecifierSet(parts[0])
+            for i, c in enumerate(parts[1:]):
+                acc = acc & (c if i % 2 == 0 else specifiers.SpecifierSet(c))
+            return acc if parts[1:] else acc & specifiers.SpecifierSet("")
         return specifiers.SpecifierSet(s)
     if typ == "Marker":
+        if s.startswith("req:"):
+            return requirements.Requirement("name ; " + s[4:]).marker
         return markers.Marker(s)
     if typ == "Requirement":
         return requirements.Requirement(s)
@@ -177,8 +195,9 @@ class C10(Prop):
             if typ not in ("Specifier", "SpecifierSet"):
                 return True, "no string operand for this type"
             x = build(typ, inp["a"])
-            for text in (inp["b"], inp["a"]):
-                parsed = build(typ, text)
+            for spelled in (inp["b"], inp["a"]):
+                parsed = build(typ, spelled)
+                text = spelled.split(":", 1)[1] if spelled[:3] in ("&: ", "in:") or spelled[:2] == "&:" else spelled
                 want = (x == parsed)
                 e1, e2, n1, n2 = (x == text), (text == x), (x != text), (text != x)
                 if not (e1 == e2 == want and n1 == n2 == (not want)):
@@ -226,4 +245,20 @@ class C10(Prop):
         return True, "a==b" if a == b else "a!=b"
 
 
-PROP = C10()
+from srccall import with_src  # noqa: E402
+
+# translated source (x5): `__eq__` / `__hash__` of Specifier and SpecifierSet, regenerated from specifiers.py and proved
+# equal to the key equality (`SSet.key`, `SSet.SpecSet.eq`) the C10 theorems are about; what is hashed is the very value
+# that `__eq__` compares (`_canonical_spec`, the frozenset `_specs`)
+PROP = with_src(C10(), share=10,
+                functions=["Specifier.__eq__", "Specifier.__hash__", "SpecifierSet.__eq__", "SpecifierSet.__hash__"],
+                module=["PkgProofs.Props.Src.SSetMember", "PkgProofs.Props.Src.SSetBuild", "PkgProofs.Props.Src.SSetRead"],
+                theorems=["Src.member_translated", "Src.build_translated", "Src.read_translated",
+                          "Src.Specifier.__eq___eq_model", "Src.Specifier.__eq___str", "Src.Specifier.__hash___eq_model",
+                          "Src.SpecifierSet.__eq___eq_model", "Src.SpecifierSet.__eq___str", "Src.SpecifierSet.__eq___spec",
+                          "Src.SpecifierSet.__hash___eq_model"])
+# … and of Requirement (requirements.py) against Req.eq / the hashed tuple
+PROP = with_src(PROP, share=10, functions=["Requirement.__eq__", "Requirement.__hash__"],
+                module=["PkgProofs.Props.Src.ReqStr", "PkgProofs.Props.Src.ReqEq"],
+                theorems=["Src.reqstr_translated", "Src.reqeq_translated", "Src.Requirement.__eq___eq_model",
+                          "Src.Requirement.__eq___parsed", "Src.Requirement.__eq___other", "Src.Requirement.__hash___eq_model"])
